@@ -39,6 +39,7 @@ type Task struct {
 	noPreempt bool
 	parkSeq   uint64
 	holding   int // number of sim-locks held (diagnostics)
+	atomic    int // >0: inside simrt.Atomic - yields neither count nor pre-empt
 }
 
 type lockState struct {
@@ -215,6 +216,11 @@ func Yield(site int) {
 		return // unmanaged goroutine
 	}
 	if s.cur == t {
+		if t.atomic > 0 {
+			// an observation of the harness (sampling a session's state for an event record): not a scheduling point
+			s.mu.Unlock()
+			return
+		}
 		s.Yields++
 		Progress.Add(1)
 		s.LastSite = site
@@ -268,6 +274,25 @@ func Yield(site int) {
 	}
 	s.mu.Unlock()
 	s.park(t, nil, site)
+}
+
+// Atomic runs f without scheduling points: the yields of instrumented code called from f neither count nor
+// pre-empt.  For the harness's own observations (reading several fields of a session for one event record),
+// which must be a consistent snapshot taken at the instant the event is numbered.  f must not block.
+func Atomic(f func()) {
+	s := active.Load()
+	if s == nil {
+		f()
+		return
+	}
+	t := s.me()
+	if t == nil {
+		f()
+		return
+	}
+	t.atomic++
+	defer func() { t.atomic-- }()
+	f()
 }
 
 // Settle parks the caller and lets every goroutine it may have woken (in
